@@ -46,6 +46,10 @@ def merge_cr(parts):
     return tuple(BSeg(p.name[:-2]) if isinstance(p, BSeg) and p.name.endswith("~h") else p for p in out)
 
 
+# numbers of pending packets tried for one long line (guards that count packets or bytes tend to sit at powers of two)
+LONG_LINES = {"quick": (70, 300), "thorough": (70, 300, 1100, 4200)}
+
+
 def scripts(tier):
     names = list(shapes(0))
     out = []
@@ -101,11 +105,19 @@ def run(check, repo, tier):
     # a write that fails between two reads marks the connection as lost (Device._write_socket): what was received before
     # is still delivered -- the same scripts with the flag dropped after the first returned line
     all_scripts += [(sc, 1) for sc in ([("chunk", "a|b|c")], [("chunk", "a|b")], [("chunk", "||")], [("chunk", "a|b|c"), ("chunk", "a")])]
+    # one long line that arrives in very many newline-free packets (a status report sent a byte at a time): however many
+    # packets are pending, nothing is returned before the line ending arrives (or the stream ends)
+    for n_packets in LONG_LINES[tier]:
+        all_scripts.append(([("chunk", "a")] * n_packets + [("chunk", "a|")], None))
+        all_scripts.append(([("chunk", "a")] * n_packets + [("again", None), ("chunk", "a|b")], None))
     for script, drop_after in all_scripts:
         concrete = []
         for i, (kind, nm) in enumerate(script):
             concrete.append((kind, shapes(i)[nm] if kind == "chunk" else None))
-        label = " , ".join(nm if k == "chunk" else "<no data>" for k, nm in script) + (f" , connection flag lost after read {drop_after}" if drop_after else "")
+        long_line = len(script) > 8
+        I.while_bound = len(script) + 16
+        label = (f"{len(script) - 1} packets without a line ending , {script[-1][1]}" + (" after <no data>" if script[-2][0] == "again" else "")) if long_line else \
+            " , ".join(nm if k == "chunk" else "<no data>" for k, nm in script) + (f" , connection flag lost after read {drop_after}" if drop_after else "")
 
         def entry(I_, _):
             state.update(script=list(concrete), received=(), again=0, eof_reads=0)
